@@ -395,7 +395,45 @@ func (u *Unit) renamedField(t types.Type, name string) string {
 		u.eng.noteFieldRename(structRootName(t)+"."+name, st.Field(0).Name())
 		return st.Field(0).Name()
 	}
+	// otherwise the field whose name shares by far the longest stretch with the vanished one (disconnectHandler ->
+	// onDisconnect), if there is exactly one such field and no declaration of the contract file claims it
+	best, second, bestName := 0, 0, ""
+	for i := 0; i < st.NumFields(); i++ {
+		fn := st.Field(i).Name()
+		if _, declared := u.eng.cs.Fields[structRootName(t)+"."+fn]; declared {
+			if _, inferred := u.eng.inferred[structRootName(t)+"."+fn]; !inferred {
+				continue
+			}
+		}
+		n := commonStretch(strings.ToLower(name), strings.ToLower(fn))
+		if n > best {
+			best, second, bestName = n, best, fn
+		} else if n > second {
+			second = n
+		}
+	}
+	if best >= 6 && best >= second+2 {
+		u.eng.noteFieldRename(structRootName(t)+"."+name, bestName)
+		return bestName
+	}
 	return name
+}
+
+// commonStretch: length of the longest common substring.
+func commonStretch(a, b string) int {
+	best := 0
+	for i := range a {
+		for j := range b {
+			k := 0
+			for i+k < len(a) && j+k < len(b) && a[i+k] == b[j+k] {
+				k++
+			}
+			if k > best {
+				best = k
+			}
+		}
+	}
+	return best
 }
 
 func (u *Unit) selectField(env *Env, x Val, name string, e *Expr) Val {
